@@ -109,6 +109,11 @@ def gather_texts(tier: str, rep: C.Report) -> tuple[list[str], dict]:
                 add("token-mutations", S.mutate_tokens(rnd, toks, 2 if not thorough else 4, rend.join))
                 add("char-mutations", S.mutate_chars(rnd, text, 2 if not thorough else 4))
     src["sentences"] = n_sent
+    # literal soups: string / insensitive / range / PUSH_LITERAL literals over the characters that matter to the unescaper
+    soup = S.literal_soup(rnd, 150 if not thorough else 1500)
+    add("literal-soup", soup)
+    # malformed and boundary escapes, exhaustively for short payloads
+    add("escape-probes", S.escape_probes(rnd, thorough))
     for f in files:
         add("char-mutations", S.mutate_chars(rnd, f, 6 if not thorough else 40))
     for h in HAND:
